@@ -7,6 +7,7 @@ import StarsimModel.Model.Rng
 import StarsimModel.Generated.SeedFacts
 import StarsimModel.Generated.GlobalReads
 import StarsimModel.Lemmas.Search
+import StarsimModel.Lemmas.RngFrame
 
 namespace StarsimModel.C02
 open StarsimModel.Footprint
@@ -192,6 +193,53 @@ theorem C02_search_rename_counterexample :
     (steps g1 sk 20 (start g1 0)).final = true ∧
     (steps g1 sk 20 (start g1 0)).out.filter (fun o => isOld o.2) = [(["analyzers", "probe", "watched", "dur"], 4)] ∧
     (steps small sk 20 (start small 0)).out = [(["diseases", "sir", "dur"], 4)] := by
+  decide
+
+/-! ### The streams themselves: adding distributions never moves an existing one
+
+`Rng.runMany` runs the state machines of all the distributions of a simulation under one interleaved operation list
+(`(index, op)` pairs: the per-step `jump_dt` of every module's distributions, the draws, direct generator use by
+networks, parameter changes).  An added component brings new distributions (new indices) and new operations addressed
+to them, anywhere in the list. -/
+
+open StarsimModel.Rng in
+/-- **Stream frame.** Let `extra` be the distributions an added component brings, and `ops'` ANY operation list that
+    addresses the old distributions exactly as `ops` does (what is addressed to the new ones, and where it is
+    interleaved, is arbitrary).  Then every old distribution logs the same draw positions and ends in the same state as
+    in the run without the added component — for every number of distributions, every interleaving, every length. -/
+theorem C02_streams_frame (ds extra : List Dist) (ops ops' : List (Nat × Op))
+    (hsame : ∀ i, i < ds.length → opsOf i ops' = opsOf i ops) :
+    ∀ i, i < ds.length →
+      logOf i (runMany (ds ++ extra) ops').2 = logOf i (runMany ds ops).2 ∧
+      (runMany (ds ++ extra) ops').1[i]? = (runMany ds ops).1[i]? := by
+  intro i hi
+  have h1 : ds[i]? = some ds[i] := List.getElem?_eq_getElem hi
+  have h2 : (ds ++ extra)[i]? = some ds[i] := by rw [List.getElem?_append_left hi]; exact h1
+  exact runMany_frame (ds ++ extra) ds ops' ops i i ds[i] h2 h1 (hsame i hi)
+
+open StarsimModel.Rng in
+/-- The same when the added component is listed FIRST (its distributions get the low indices and every old index
+    shifts by their number): the old distribution `i` is now `extra.length + i`. -/
+theorem C02_streams_frame_front (ds extra : List Dist) (ops ops' : List (Nat × Op))
+    (hsame : ∀ i, i < ds.length → opsOf (extra.length + i) ops' = opsOf i ops) :
+    ∀ i, i < ds.length →
+      logOf (extra.length + i) (runMany (extra ++ ds) ops').2 = logOf i (runMany ds ops).2 ∧
+      (runMany (extra ++ ds) ops').1[extra.length + i]? = (runMany ds ops).1[i]? := by
+  intro i hi
+  have h1 : ds[i]? = some ds[i] := List.getElem?_eq_getElem hi
+  have h2 : (extra ++ ds)[extra.length + i]? = some ds[i] := by
+    rw [List.getElem?_append_right (by omega)]; simp [h1]
+  exact runMany_frame (extra ++ ds) ds ops' ops (extra.length + i) i ds[i] h2 h1 (hsame i hi)
+
+/-- non-vacuity: the two-distribution trace of C04 with a third distribution added and drawn from in between -/
+example :
+    let ds := [ (Rng.step (Rng.fresh true true) (.init 11 (some 5) false)).1, (Rng.step (Rng.fresh true true) (.init 12 (some 5) false)).1 ]
+    let extra := [ (Rng.step (Rng.fresh true true) (.init 99 (some 5) false)).1 ]
+    let ops : List (Nat × Rng.Op) := [ (0, .jumpDt 1 false), (1, .jumpDt 1 false), (0, .rvs 10 false), (1, .rvs 7 false), (0, .jumpDt 2 false), (1, .direct 5) ]
+    let ops' : List (Nat × Rng.Op) := [ (2, .jumpDt 1 false), (0, .jumpDt 1 false), (1, .jumpDt 1 false), (2, .rvs 4 false), (0, .rvs 10 false), (2, .rvs 4 false),
+                                        (1, .rvs 7 false), (0, .jumpDt 2 false), (2, .jumpDt 2 false), (1, .direct 5), (2, .rvs 1 false) ]
+    (∀ i, i < ds.length → Rng.opsOf i ops' = Rng.opsOf i ops) ∧
+    Rng.logOf 0 (Rng.runMany (ds ++ extra) ops').2 = [⟨1000, []⟩] ∧ Rng.logOf 2 (Rng.runMany (ds ++ extra) ops').2 = [⟨1000, []⟩, ⟨1001, []⟩, ⟨2000, []⟩] := by
   decide
 
 /-! ### Non-vacuity -/
